@@ -5,6 +5,7 @@ package main
 import (
 	"fmt"
 	"os"
+	"path/filepath"
 	"go/ast"
 	"go/token"
 	"go/types"
@@ -25,6 +26,7 @@ type Obligation struct {
 	Cover bool // must be SAT (hyps satisfiable)
 	Res   SolveResult
 	File  string
+	Wall  float64 // seconds spent on this obligation, all stages
 	// for replay
 	ex      *Exec
 	st      *State
@@ -324,7 +326,14 @@ func (ex *Exec) refFacts(st *State, v Val) {
 			}
 			bound := st.alloc()
 			if t := v.L[i]; ex.entry != nil && t.Op == "select" && t.Args[0].Op == "var" && strings.HasSuffix(t.Args[0].Name, "@0") {
-				bound = ex.entry.alloc() // read from the untouched entry heap: allocated before the function started
+				// read from the untouched entry heap: what an object that existed at entry holds was allocated
+				// before the function started. (An object allocated since — e.g. one handed out by a pool — may
+				// hold anything allocated so far; stating the entry bound for it contradicts "fresh" facts.)
+				if entryAllocated(t.Args[1]) || os.Getenv("GOVC_OLDREF") != "" {
+					bound = ex.entry.alloc()
+				} else {
+					ex.assume(st, Implies(IntLe(t.Args[1], ex.entry.alloc()), IntLe(v.L[i], ex.entry.alloc())))
+				}
 			}
 			ex.assume(st, IntLe(v.L[i], bound))
 		case LSliceLen:
@@ -336,6 +345,22 @@ func (ex *Exec) refFacts(st *State, v Val) {
 				BVCmp("bvsle", BVI(0, 64), off), BVCmp("bvsle", off, BVI(1<<40, 64))))
 		}
 	}
+}
+
+// entryAllocated: the reference term syntactically denotes nil or an object that existed when the function
+// started (a parameter / free variable, a constant, or something read from such an object in the entry heap).
+func entryAllocated(t *Term) bool {
+	switch {
+	case t.IsConst():
+		return true
+	case t.Op == "var":
+		return strings.HasPrefix(t.Name, "p_") || strings.HasPrefix(t.Name, "fv_")
+	case t.Op == "select" && t.Args[0].Op == "var" && strings.HasSuffix(t.Args[0].Name, "@0"):
+		return entryAllocated(t.Args[1])
+	case t.Op == "ite":
+		return entryAllocated(t.Args[1]) && entryAllocated(t.Args[2])
+	}
+	return false
 }
 
 // ------------------------------------------------------------------ function execution
@@ -960,6 +985,8 @@ func loopPos(h *ssa.BasicBlock) token.Pos {
 	return token.NoPos
 }
 
+var branchCover = os.Getenv("GOVC_BRANCHCOVER") != ""
+
 func currentVarMark() int {
 	termMu.Lock()
 	defer termMu.Unlock()
@@ -1039,6 +1066,19 @@ func (ex *Exec) execBlock(fr *Frame, b *ssa.BasicBlock, st *State) []edgeSt {
 			s1.assumePC(c)
 			s2 := st
 			s2.assumePC(Not(c))
+			if branchCover && ex.noOblige == 0 {
+				// diagnostic (GOVC_BRANCHCOVER): each side of each branch should be satisfiable together with
+				// everything assumed so far; a definitely unsatisfiable side is dead code or a vacuous path
+				for i, s := range []*State{s1, s2} {
+					if s.infeasible() {
+						continue
+					}
+					pos := ex.ld.fset.Position(x.Cond.Pos())
+					nm := fmt.Sprintf("%s#cover:branch:%s%s:%d:%d:%v", fnKey(ex.top), fr.label, filepath.Base(pos.Filename), pos.Line, b.Index, i == 0)
+					ex.obs = append(ex.obs, &Obligation{Name: nm, Kind: "cover", Fn: fnKey(ex.top), Cover: true, Pos: pos,
+						Hyps: append(append([]*Term{}, ex.assumptions...), s.pc...), ex: ex, st: s})
+				}
+			}
 			return []edgeSt{{b, b.Succs[0], s1}, {b, b.Succs[1], s2}}
 		case *ssa.Jump:
 			return []edgeSt{{b, b.Succs[0], st}}
